@@ -197,6 +197,8 @@ impl Driver {
         } = self;
         let need_add = !registry.contains_key(&arg.fd);
         let queue = registry.entry(arg.fd).or_default();
+        #[cfg(compio_verif)]
+        let verif_key = key.as_raw() as u64;
         let token = queue.push_back_interest(key, arg.interest);
         #[cfg(compio_verif)]
         crate::verif::emit(
@@ -204,9 +206,21 @@ impl Driver {
             queue.read_queue.back().or(queue.write_queue.back()).map_or(0, |k| k.as_raw() as u64),
             arg.fd as i64,
         );
+        #[cfg(compio_verif)]
+        crate::verif::emit(
+            crate::verif::POLL_Q2,
+            verif_key,
+            arg.fd as i64 | ((matches!(arg.interest, Interest::Writable) as i64) << 32),
+        );
         let event = queue.event();
         #[cfg(compio_verif)]
         crate::verif::emit(crate::verif::POLL_ARM, event.key as u64, arg.fd as i64);
+        #[cfg(compio_verif)]
+        crate::verif::emit(
+            crate::verif::POLL_ARM2,
+            event.key as u64,
+            arg.fd as i64 | ((event.readable as i64) << 32) | ((event.writable as i64) << 33),
+        );
         let res = if need_add {
             // SAFETY: the events are deleted correctly.
             unsafe { notify.poll.add(arg.fd, event) }
@@ -232,10 +246,22 @@ impl Driver {
     unsafe fn submit_front(&mut self, key: ErasedKey, arg: WaitArg) -> io::Result<()> {
         let need_add = !self.registry.contains_key(&arg.fd);
         let queue = self.registry.entry(arg.fd).or_default();
+        #[cfg(compio_verif)]
+        crate::verif::emit(
+            crate::verif::POLL_Q2,
+            key.as_raw() as u64,
+            arg.fd as i64 | ((matches!(arg.interest, Interest::Writable) as i64) << 32) | (1 << 33),
+        );
         queue.push_front_interest(key, arg.interest);
         let event = queue.event();
         #[cfg(compio_verif)]
         crate::verif::emit(crate::verif::POLL_ARM, event.key as u64, arg.fd as i64);
+        #[cfg(compio_verif)]
+        crate::verif::emit(
+            crate::verif::POLL_ARM2,
+            event.key as u64,
+            arg.fd as i64 | ((event.readable as i64) << 32) | ((event.writable as i64) << 33),
+        );
         if need_add {
             // SAFETY: the events are deleted correctly.
             unsafe { self.poller().add(arg.fd, event)? }
@@ -259,6 +285,14 @@ impl Driver {
                 renew_event.key as u64,
                 fd.as_raw_fd() as i64,
             );
+            #[cfg(compio_verif)]
+            crate::verif::emit(
+                crate::verif::POLL_ARM2,
+                renew_event.key as u64,
+                fd.as_raw_fd() as i64
+                    | ((renew_event.readable as i64) << 32)
+                    | ((renew_event.writable as i64) << 33),
+            );
             self.poller().modify(fd, renew_event)?;
         }
         Ok(())
@@ -266,6 +300,12 @@ impl Driver {
 
     /// Remove one interest from the queue.
     fn remove_one(&mut self, key: &ErasedKey, fd: RawFd) -> io::Result<()> {
+        #[cfg(compio_verif)]
+        crate::verif::emit(
+            crate::verif::POLL_REMOVE,
+            key.as_raw() as u64,
+            fd as i64 | ((self.registry.contains_key(&fd) as i64) << 32),
+        );
         let Some(queue) = self.try_get_queue(fd) else {
             return Ok(());
         };
@@ -446,6 +486,18 @@ impl Driver {
     #[allow(clippy::blocks_in_conditions)]
     fn poll_one(&mut self, event: Event, fd: RawFd) -> io::Result<()> {
         let queue = self.get_queue(fd);
+        #[cfg(compio_verif)]
+        crate::verif::emit(
+            crate::verif::POLL_POP,
+            if event.readable && !queue.read_queue.is_empty() {
+                queue.read_queue.front().map_or(0, |k| k.as_raw() as u64)
+            } else if event.writable {
+                queue.write_queue.front().map_or(0, |k| k.as_raw() as u64)
+            } else {
+                0
+            },
+            fd as i64,
+        );
 
         if let Some((key, _)) = queue.pop_interest(&event)
             && let mut op = key.borrow()
@@ -455,6 +507,8 @@ impl Driver {
             match { op.carrier.operate() } {
                 // Submit all fd's back to the front of the queue
                 Poll::Pending => {
+                    #[cfg(compio_verif)]
+                    crate::verif::emit(crate::verif::POLL_OPERATE, key.as_raw() as u64, 0);
                     let extra = op.extra_mut().as_poll_mut();
                     extra.reset();
                     // `FdQueue` may have been removed, need to submit again
@@ -470,6 +524,8 @@ impl Driver {
                     }
                 }
                 Poll::Ready(res) => {
+                    #[cfg(compio_verif)]
+                    crate::verif::emit(crate::verif::POLL_OPERATE, key.as_raw() as u64, 1);
                     drop(op);
                     Entry::new(key, res).notify()
                 }
@@ -522,6 +578,12 @@ impl Driver {
                 trace!("receive {} for {:?}", event.key, event);
                 #[cfg(compio_verif)]
                 crate::verif::emit(crate::verif::POLL_EVENT, event.key as u64, 0);
+                #[cfg(compio_verif)]
+                crate::verif::emit(
+                    crate::verif::POLL_EVENT2,
+                    event.key as u64,
+                    event.readable as i64 | ((event.writable as i64) << 1),
+                );
                 // SAFETY: user_data is promised to be valid.
                 let key = unsafe { BorrowedKey::from_raw(event.key) };
                 let mut op = key.borrow();
